@@ -79,6 +79,7 @@ def doFst (c : Cfg) (op : String) (key : Path) : String :=
     | .error e => rej e
     | .ok dst => match k dst with
       | .file => fin s!"acc deleted {hexList [dst]}"
+      | .absent => fin "acc deleted _"  -- os.Remove's ENOENT is ignored
       | _ => fin "acc oserr"
   | "qry" =>
     let stat : Path → Option StatKind := fun p => match k p with
@@ -91,7 +92,7 @@ def doFst (c : Cfg) (op : String) (key : Path) : String :=
         match queryWalkRoot c.root key (fun p => (stat p).getD .absent) with
         | .error e => rej e
         | .ok wr => match k wr, relTo c.root wr with
-          | .dir, some r => fin s!"acc keys {hexList ((fstFiles.filter (underRel r)).map (fun f => c.root ++ 47 :: f))}"
+          | .dir, some r => fin s!"acc keys {hexList ((fstFiles.filter (fun f => underRel r f && queryMatchesKey key f)).map (fun f => c.root ++ 47 :: f))}"
           | _, _ => fin "acc keys _"  -- the walk fails asynchronously and delivers nothing
   | _ => "bad-op"
 
